@@ -137,6 +137,16 @@ func init() {
 			var b [8]byte
 			w.C.FillBytes(b[:])
 			t = sym.ConstStr(sym.Bytes, string(b[:]))
+		} else if j, okj := limbOfCanonical(w); okj {
+			// the big-endian bytes of limb j of the canonical representative of a ring element are bytes 8*(3-j) .. 8*(3-j)+8
+			// of its canonical 32-byte encoding (one normal form for "encode, then slice" and "slice the limbs, then encode")
+			op := "fp_bytes"
+			if w.Args[0].Op == "int_of:fn" {
+				op = "fn_bytes"
+			}
+			enc := sym.App(sym.Bytes, op, w.Args[0].Args[0])
+			sym.SetBytesLen(enc, 32)
+			t = SubBytes(enc, sym.ConstI(8*(3-j)), sym.ConstI(8*(3-j)+8))
 		} else {
 			t = sym.App(sym.Bytes, "be64bytes", w)
 		}
@@ -398,4 +408,16 @@ func NilTerm(v Val) *sym.Term {
 		return sym.ConstBool(x.Base == nil)
 	}
 	return sym.ConstBool(false)
+}
+
+// limbOfCanonical recognises limb(int_of:S(x), j) with a constant j in 0..3.
+func limbOfCanonical(w *sym.Term) (int64, bool) {
+	if w.Op != "limb" || len(w.Args) != 2 || (w.Args[0].Op != "int_of:fn" && w.Args[0].Op != "int_of:fp") || len(w.Args[0].Args) != 1 {
+		return 0, false
+	}
+	j, ok := w.Args[1].Int64()
+	if !ok || j < 0 || j > 3 {
+		return 0, false
+	}
+	return j, true
 }
